@@ -22,7 +22,12 @@
   ("what the call works on was allocated by the call, in a window of identities nothing
   persistent lives in") through every stage and every `$facet` branch (Proofs/C16Inv.lean).
 
-  Since the repair of `$addFields` (every level of a dotted name is copied before it is written)
+  `tz_aware` collections: the state a call leaves is the plain call's (`tz_aware_same_state`), and
+  the results are a rebuild made only of objects allocated after the last stage finished
+  (`tz_aware_results_separate`, from `Disc.resultCopy`).
+
+  Since the repair of `$addFields` (every level of a dotted name is copied before it is written;
+  through an array every item is rebuilt and receives its own deep copy of the value)
   the stages of the class `Stage.pure` — everything but `$lookup`, `$out`, `$facet` — contain no
   in-place write at all: `pure_stage_writes_nothing` / `stage_input_unchanged` hold in EVERY
   world, with no invariant and no hypothesis on the state, and `$facet` isolation of such
@@ -138,6 +143,51 @@ theorem aggregate_readonly (sem : Sem) (s s' : State) (coll : String) (out : Lis
     have := aggregateStages_readonly sem s coll _ w hp hno hw
     exact ⟨this.1, this.2.1, this.2.2.2.1⟩
   · cases h
+
+/-! ### `tz_aware` collections -/
+
+/-- **the state a call leaves does not depend on `tz_aware`**: the call on a `tz_aware`
+    collection leaves exactly the state the plain call leaves, so `aggregate_readonly`,
+    `pipeline_arg_unchanged` and `repeatable` hold for it as they stand -/
+theorem tz_aware_same_state (sem : Sem) (tz : Bool) (s s' : State) (coll : String) (out : List HV)
+    (h : aggregateTz Disc.reference sem tz s coll = .ok (out, s')) :
+    ∃ out0, aggregate Disc.reference sem s coll = .ok (out0, s') ∧
+      (tz = false → out = out0) ∧ toVals out = toVals out0 := by
+  obtain ⟨w, _, ho, _, ha⟩ := aggregateTz_state Disc.reference sem tz s s' coll out h
+  refine ⟨w.work, ha, fun ht => by subst ht; simpa [handOut] using ho, ?_⟩
+  cases tz
+  · simp [ho, handOut]
+  · rw [ho]; exact (handOut_tz w).2
+
+/-- **under `tz_aware` the results share nothing with anything**: every pipeline (`$out`,
+    `$lookup`, `$facet` included) hands out documents made ONLY of objects allocated after its
+    last stage finished (`Disc.resultCopy`: the rebuild), while everything that existed then —
+    the documents the stages built (those `$out` stored copies of, those `$lookup` wrote into),
+    every collection, the caller's pipeline object and the call's copy of it — lies outside that
+    window.  (Plain collections: the results are the working documents themselves, objects of
+    the call: `aggregate_readonly_stages`.) -/
+theorem tz_aware_results_separate (sem : Sem) (s s' : State) (coll : String) (out : List HV)
+    (hp : s.persistent = true)
+    (h : aggregateTz Disc.reference sem true s coll = .ok (out, s')) :
+    ∃ (w : World) (n' : Nat), aggregateStages Disc.reference sem s coll (parsePipe s.pipe) = .ok w ∧
+      s' = w.state ∧ toVals out = toVals w.work ∧
+      allL (inR w.nextTmp n') out = true ∧
+      allL (below w.nextTmp) w.work = true ∧ allColls (below w.nextTmp) w.colls = true ∧
+      w.pipe.all (below w.nextTmp) = true ∧ w.cpipe.all (below w.nextTmp) = true := by
+  obtain ⟨w, hw, ho, hs, _⟩ := aggregateTz_state Disc.reference sem true s s' coll out h
+  have hb := aggregateStages_below sem s coll _ w hp hw
+  refine ⟨w, (deepTmpL w.work w.nextTmp).2, hw, hs, ?_, ?_, hb.1, hb.2.1, hb.2.2.1, hb.2.2.2⟩
+  · rw [ho]; exact (handOut_tz w).2
+  · rw [ho]; exact (handOut_tz w).1
+
+/-- an identity of the results' window is in none of the classes the rest lives in -/
+theorem window_disjoint (m n : Nat) (i : Id) : inR m n i = true → below m i = false :=
+  inR_not_below i
+
+/-- the `$lookup` witness runs on a `tz_aware` collection (the hypotheses are satisfiable) -/
+example : (mkState pipeFacetLookup).persistent = true ∧
+    (aggregateTz Disc.reference Sem.trivial true (mkState pipeFacetLookup) "a").toOption.isSome = true := by
+  decide +kernel
 
 /-! ### the pipeline argument -/
 
